@@ -479,11 +479,24 @@ func init() {
 		return nil
 	}
 	r["Yield"] = func(fr *frame, args []value) value { SC.yield(); return nil }
-	r["WaitIdle"] = func(fr *frame, args []value) value { SC.waitIdle(false); return nil }
+	r["WaitIdle"] = func(fr *frame, args []value) value { SC.waitIdle(false); RD.joinAll(); return nil }
+	r["RaceDetect"] = func(fr *frame, args []value) value {
+		RD.on = args[0].(bool)
+		if RD.on {
+			EX.Stubs["race detection: vector clocks over go/AfterFunc forks, mutex and RWMutex release-acquire, channel, atomic and sync.Once operations (two-way); loads, stores, map operations, in-place append/copy of repository code"]++
+			for _, t := range SC.thr {
+				if t.vc == nil {
+					t.vc = vclock{}.set(t.id, 1)
+				}
+			}
+		}
+		return nil
+	}
 	r["RunReadyFIFO"] = func(fr *frame, args []value) value {
 		for {
 			en := SC.enabled(false)
 			if len(en) == 0 {
+				RD.joinAll()
 				return nil
 			}
 			cur := SC.cur
@@ -492,7 +505,7 @@ func init() {
 			cur.state = stReady
 		}
 	}
-	r["FireTimers"] = func(fr *frame, args []value) value { SC.waitIdle(true); return nil }
+	r["FireTimers"] = func(fr *frame, args []value) value { SC.waitIdle(true); RD.joinAll(); return nil }
 	r["PreemptOn"] = func(fr *frame, args []value) value { SC.preemptOn = true; return nil }
 	r["PreemptOff"] = func(fr *frame, args []value) value { SC.preemptOn = false; return nil }
 	r["PreemptAtUnlock"] = func(fr *frame, args []value) value { SC.unlockYield = args[0].(bool); return nil }
@@ -525,6 +538,14 @@ func init() {
 			return int64(0)
 		}
 		return conv(types.Typ[types.Int64], types.Typ[types.Int64], SC.TickerPeriods[i])
+	}
+	r["TickerResetCount"] = func(fr *frame, args []value) value { return len(SC.TickerResets) }
+	r["TickerResetPeriod"] = func(fr *frame, args []value) value {
+		i := args[0].(int)
+		if i < 0 || i >= len(SC.TickerResets) {
+			return int64(0)
+		}
+		return conv(types.Typ[types.Int64], types.Typ[types.Int64], SC.TickerResets[i].period)
 	}
 	r["AssumeDecimals"] = func(fr *frame, args []value) value {
 		n := args[1].(int)
